@@ -19,6 +19,9 @@ THEOREMS = ["tables_ok2", "decode_construct", "decode_construct_gen", "render_pr
             "devStd_accepted_is_legal", "devInst_accepted_is_legal", "devSpecial_accepted_is_legal",
             "event_keywords_spec", "event_keywords_error", "event_accepted_fields", "unknownEvent_accepted_fields",
             "ambiguous_accepted_is_legal", "event_accepted_is_legal"]
+EXTRA_MODULES = ["DaliVerif.Props.EndToEnd"]
+EXTRA_THEOREMS = ["EndToEnd.frame_of_legal", "EndToEnd.luba_delivers", "EndToEnd.sci_delivers",
+                  "EndToEnd.tridonic_delivers", "EndToEnd.hidhasseb_delivers", "EndToEnd.daliserver_delivers"]
 TRUSTED = ["hand-written models Model/Construct.lean (argument handling) and Model/Decode.lean (frame assembly), tied "
            "on every run over all concrete classes x all destinations x parameter values (exhaustive for 4-bit and "
            "8-bit parameters, sampled for two-byte specials and instance bytes) plus a malformed-argument stream"]
